@@ -1,3 +1,4 @@
+import Toodee.Spec.OpsSpec
 import Toodee.Proofs.Index
 /-
   C03 — A view is exactly the requested window of its parent.
@@ -11,10 +12,6 @@ import Toodee.Proofs.Index
 -/
 namespace Toodee
 variable {α : Type}
-
-/-- the size the property prescribes -/
-def viewSize (s e : Nat × Nat) : Nat × Nat :=
-  if e.1 - s.1 = 0 ∨ e.2 - s.2 = 0 then (0, 0) else (e.1 - s.1, e.2 - s.2)
 
 /-- `TooDeeView::view`, `TooDeeViewMut::view_mut` (unchecked slicing) and `TooDeeViewMut::view` (checked slicing) on a view -/
 theorem C03_view_valid (m : Mode) (v : VW) (n : Nat) (h : v.Inv n) (s e : Nat × Nat)
